@@ -34,9 +34,10 @@ env["VERIF_FUZZ_PID"] = pid
 logdir = os.path.join(W, "fuzz-logs", f"{target}-{pid}")
 shutil.rmtree(logdir, ignore_errors=True)
 os.makedirs(logdir, exist_ok=True)
-fd = os.path.join(V, "harness", "fuzz")
+HARN = os.environ.get("VERIF_HARNESS") or os.path.join(V, "harness")
+fd = os.path.join(HARN, "fuzz")
 if not os.path.exists(os.path.join(fd, "Cargo.lock")):
-    shutil.copy(os.path.join(V, "harness", "Cargo.lock"), os.path.join(fd, "Cargo.lock"))
+    shutil.copy(os.path.join(HARN, "Cargo.lock"), os.path.join(fd, "Cargo.lock"))
 t0 = time.time()
 b = subprocess.run(["cargo", "+nightly", "fuzz", "build", "--fuzz-dir", ".", target], cwd=fd, env=env, stdout=subprocess.PIPE, stderr=subprocess.STDOUT)
 if b.returncode != 0:
